@@ -637,6 +637,12 @@ struct VecMachine
          if(reg(1) == reg(2)) SKIP
             S[reg(1)] = S[reg(2)];
       }
+      else if(c == "sappend")
+      {
+         // DSVectorBase::add(const SVectorBase&): "Append nonzeros of sv"
+         if(reg(1) == reg(2)) SKIP
+            S[reg(1)].add(static_cast<const SVectorBase<R>&>(S[reg(2)]));
+      }
       else if(c == "sfromd") S[reg(1)] = D[reg(2)];
       else if(c == "sfromss")
       {
